@@ -124,9 +124,12 @@ static void run_cell (const CMD *c, int state, int fmt, int thorough)
 			/* variable-size inputs: a self-consistent struct that claims to fit the buffer */
 			if (c->id == SFC_SET_CUE && ds >= 4) { uint32_t n = (uint32_t) ((ds - 4) / (int) sizeof (SF_CUE_POINT)) ; memset (buf, 0, ds) ; memcpy (buf, &n, 4) ; }
 			if ((c->id == SFC_SET_BROADCAST_INFO && ds >= (int) offsetof (SF_BROADCAST_INFO, coding_history)) )
-			{	memset (buf, 0, ds) ; uint32_t n = (uint32_t) (ds - (int) offsetof (SF_BROADCAST_INFO, coding_history)) ; memcpy (buf + offsetof (SF_BROADCAST_INFO, coding_history_size), &n, 4) ; }
+			{	memset (buf, 0, ds) ; uint32_t n = (uint32_t) (ds - (int) offsetof (SF_BROADCAST_INFO, coding_history)) ; memcpy (buf + offsetof (SF_BROADCAST_INFO, coding_history_size), &n, 4) ;
+				/* a history that fills the block to its last byte and ends in a line end */
+				memset (buf + offsetof (SF_BROADCAST_INFO, coding_history), (ds & 1) ? '\n' : '\r', n) ; }
 			if ((c->id == SFC_SET_CART_INFO && ds >= (int) offsetof (SF_CART_INFO, tag_text)) )
-			{	memset (buf, 0, ds) ; uint32_t n = (uint32_t) (ds - (int) offsetof (SF_CART_INFO, tag_text)) ; memcpy (buf + offsetof (SF_CART_INFO, tag_text_size), &n, 4) ; }
+			{	memset (buf, 0, ds) ; uint32_t n = (uint32_t) (ds - (int) offsetof (SF_CART_INFO, tag_text)) ; memcpy (buf + offsetof (SF_CART_INFO, tag_text_size), &n, 4) ;
+				memset (buf + offsetof (SF_CART_INFO, tag_text), (ds & 1) ? '\n' : 'x', n) ; }
 			}
 		printf ("P %x %d %x datasize=%d data=%s\n", c->id, state, fmt, ds, buf ? "buf" : "null") ; fflush (stdout) ;
 		uint64_t before = state_digest (f) ;
